@@ -27,8 +27,12 @@ def lattice(tier):
   bits_list = [1, 2, 3, 4, 5, 6, 8] if tier == "quick" else [1, 2, 3, 4, 5, 6, 7, 8, 10, 12, 16]
   ints = [0, 1, 2, 3]
   alphas = [None, 1.0, 0.5, 2.0, 0.25] if tier != "quick" else [None, 0.5, 2.0]
-  # quantized_bits
-  for b, i, kn, s, a in itertools.product(bits_list, ints, [1, 0], [0, 1], alphas):
+  # quantized_bits (negative integer bits are accepted by quantized_bits and
+  # quantized_linear - fractional-only formats - but not by quantized_relu)
+  ints_signed = [-2, -1] + ints
+  for b, i, kn, s, a in itertools.product(bits_list, ints_signed, [1, 0], [0, 1], alphas):
+    if i < 0 and (b in (1, 5, 6, 7, 10, 12) or (a is not None and a != 0.5)):
+      continue
     if i > b - kn and not (b == 2 and i == 3):
       continue
     if b - kn == 0 and i != 0:
@@ -39,8 +43,10 @@ def lattice(tier):
                  "kw": {"bits": b, "integer": i, "symmetric": s,
                         "keep_negative": bool(kn), "alpha": a}})
   # quantized_linear (alpha passed as python float -> tensor-like constant)
-  for b, i, kn, s, a in itertools.product(bits_list, ints, [1, 0], [0, 1], alphas):
+  for b, i, kn, s, a in itertools.product(bits_list, ints_signed, [1, 0], [0, 1], alphas):
     if i > b - kn:
+      continue
+    if i < 0 and (b in (1, 5, 6, 7, 10, 12) or (a is not None and a != 0.5)):
       continue
     if tier == "quick" and b in (5, 6) and a is not None:
       continue
@@ -90,6 +96,18 @@ def lattice(tier):
         cfgs.append({"cls": "quantized_sigmoid", "kw": kw})
       else:
         cfgs.append({"cls": "quantized_sigmoid", "kw": kw, "sigmoid": mode})
+  # use_stochastic_rounding=True evaluated in the inference phase (learning
+  # phase 0, which every case asserts): the flag must not change the codes
+  sr = []
+  for c in cfgs:
+    kw = c["kw"]
+    if kw.get("bits") in (2, 4, 8) and kw.get("integer", 0) in (0, 1) and kw.get("alpha") is None \
+        and not kw.get("use_sigmoid") and kw.get("is_quantized_clip", True):
+      if c["cls"] == "quantized_relu" and kw.get("negative_slope") not in (0.0, 0.25):
+        continue
+      sr.append({"cls": c["cls"], "kw": dict(kw, use_stochastic_rounding=True),
+                 **({"sigmoid": c["sigmoid"]} if "sigmoid" in c else {})})
+  cfgs += sr
   if tier != "quick":
     # wide formats: codes up to the 2^24-step bound of the property (partial walks)
     for b in (20, 24):
